@@ -393,6 +393,15 @@ func canonLay(l *Lay) *Lay {
 	for _, it := range l.Items {
 		c.Items = append(c.Items, canonLay(it))
 	}
+	// a loop over the one-element window X[a:(a + 1)] is its body for the element X[a]
+	if c.K == "loop" && len(c.Items) == 1 {
+		if base, idx, ok := oneElementWindow(c.S); ok {
+			body := substLay(c.Items[0], c.S+"[i]", base+"["+idx+"]")
+			if !strings.Contains(body.String(), c.S) {
+				return body
+			}
+		}
+	}
 	c.Cases = nil
 	for _, cs := range l.Cases {
 		nc := selCase{L: canonLay(cs.L)}
@@ -449,4 +458,76 @@ func lowBitsOnly(t *T) bool {
 		}
 	}
 	return true
+}
+
+// oneElementWindow: "X[a:(a + 1)]" -> X, a.
+func oneElementWindow(coll string) (base, idx string, ok bool) {
+	if !strings.HasSuffix(coll, "]") {
+		return "", "", false
+	}
+	depth := 0
+	open := -1
+	for i := len(coll) - 1; i >= 0; i-- {
+		switch coll[i] {
+		case ']':
+			depth++
+		case '[':
+			depth--
+			if depth == 0 {
+				open = i
+			}
+		}
+		if open >= 0 {
+			break
+		}
+	}
+	if open <= 0 {
+		return "", "", false
+	}
+	inner := coll[open+1 : len(coll)-1]
+	// split at the top-level colon
+	depth = 0
+	for i := 0; i < len(inner); i++ {
+		switch inner[i] {
+		case '(', '[':
+			depth++
+		case ')', ']':
+			depth--
+		case ':':
+			if depth == 0 {
+				lo, hi := inner[:i], inner[i+1:]
+				if hi == "("+lo+" + 1)" || hi == "(1 + "+lo+")" {
+					return coll[:open], lo, true
+				}
+				return "", "", false
+			}
+		}
+	}
+	return "", "", false
+}
+
+// substLay: a copy of the layout with every occurrence of old in its terms replaced.
+func substLay(l *Lay, old, new string) *Lay {
+	if l == nil {
+		return nil
+	}
+	c := *l
+	c.S = strings.ReplaceAll(l.S, old, new)
+	c.Items = nil
+	for _, it := range l.Items {
+		c.Items = append(c.Items, substLay(it, old, new))
+	}
+	c.Cases = nil
+	for _, cs := range l.Cases {
+		nc := selCase{L: substLay(cs.L, old, new)}
+		for _, conj := range cs.Conds {
+			var nj []condLit
+			for _, lit := range conj {
+				nj = append(nj, condLit{Atom: strings.ReplaceAll(lit.Atom, old, new), Truth: lit.Truth})
+			}
+			nc.Conds = append(nc.Conds, nj)
+		}
+		c.Cases = append(c.Cases, nc)
+	}
+	return &c
 }
